@@ -315,10 +315,10 @@ def run_job(job):
             return ok
 
         if job.get("near"):
-            budgets = [("near-collision-tokens", 600 if quick else 1500)]
+            budgets = [("near-collision-tokens", 600 if quick else 900)]
         elif kind == "replace" and STRUCT[j]:
             # structural byte: try all 255 values, then the property's replacement classes, then classes with MAC tokens
-            budgets = [("full", 45 if quick else 600), ("classes", 120 if quick else 900), ("classes+tokens", 1200 if quick else 3000)]
+            budgets = [("full", 45 if quick else 60), ("classes", 120 if quick else 180), ("classes+tokens", 1200 if quick else 1500)]  # thorough: slightly larger; the former 600/900/3000 s per position made the tier run for hours
         else:
             budgets = [("full", 1500 if quick else 4000)]
         for lvl, budget in budgets:
